@@ -516,6 +516,11 @@ func runC02(r *Run) {
 						if ld.X == ssa.Value(ml.Elem) {
 							okElem = true
 						}
+						// the element addressed again through the index the loop handed out (a merged "index or -1"
+						// that is the loop's index wherever this return can be reached)
+						if ia, isIA := ld.X.(*ssa.IndexAddr); isIA && ml.Elem != nil && ia.X == ml.Elem.X && canonPhi(ia.Index) == canonPhi(ml.Elem.Index) {
+							okElem = true
+						}
 						if al, ok := ld.X.(*ssa.Alloc); ok {
 							if cv := lastWholeStore(al, ld); cv != nil {
 								if l2, ok := cv.(*ssa.UnOp); ok && l2.X == ssa.Value(ml.Elem) {
@@ -644,6 +649,16 @@ func runC02(r *Run) {
 					gt.Violation(contains, instrPos(in), "early false", "the membership test gives up before the end of the list")
 				}
 				for _, ret := range returnsOf(contains) {
+					// the result computed from a merged "index or -1": judged per incoming value
+					if edges, isCmp := mergedIndexTest(ret.Results[0]); isCmp {
+						for _, ev := range edges {
+							inMatch := blockDominates(ml.eqEdge(), ev.pred) && len(ml.eqEdge().Preds) == 1
+							if !ev.known || ev.val != inMatch {
+								gt.Violation(contains, instrPos(ret), "membership result", "Contains must be true exactly on a type match")
+							}
+						}
+						continue
+					}
 					c, isC := ret.Results[0].(*ssa.Const)
 					isTrue := isC && c.Value != nil && c.Value.String() == "true"
 					inMatch := blockDominates(ml.eqEdge(), ret.Block()) && len(ml.eqEdge().Preds) == 1
@@ -907,4 +922,80 @@ func earlyExit(ml *matchLoop) ssa.Instruction {
 		return ex[0].Instrs[len(ex[0].Instrs)-1]
 	}
 	return nil
+}
+
+// mergedIndexTest: v is a comparison of a phi with a constant (the "index or -1" a search helper returns,
+// tested for >= 0): its truth value per incoming edge of the phi, decided from constants and from lower
+// bounds that hold by construction (a range index is never negative).
+type mergedEdgeVal struct {
+	pred  *ssa.BasicBlock
+	val   bool
+	known bool
+}
+
+func mergedIndexTest(v ssa.Value) ([]mergedEdgeVal, bool) {
+	bo, ok := v.(*ssa.BinOp)
+	if !ok {
+		return nil, false
+	}
+	ph, isPhi := bo.X.(*ssa.Phi)
+	k, isK := constInt(bo.Y)
+	op := bo.Op
+	if !isPhi || !isK {
+		ph, isPhi = bo.Y.(*ssa.Phi)
+		k, isK = constInt(bo.X)
+		switch op {
+		case token.LSS:
+			op = token.GTR
+		case token.LEQ:
+			op = token.GEQ
+		case token.GTR:
+			op = token.LSS
+		case token.GEQ:
+			op = token.LEQ
+		}
+	}
+	if !isPhi || !isK {
+		return nil, false
+	}
+	var out []mergedEdgeVal
+	for i, e := range ph.Edges {
+		ev := mergedEdgeVal{pred: ph.Block().Preds[i]}
+		if c, isC := constInt(e); isC {
+			ev.known = true
+			switch op {
+			case token.LSS:
+				ev.val = c < k
+			case token.LEQ:
+				ev.val = c <= k
+			case token.GTR:
+				ev.val = c > k
+			case token.GEQ:
+				ev.val = c >= k
+			case token.EQL:
+				ev.val = c == k
+			case token.NEQ:
+				ev.val = c != k
+			default:
+				ev.known = false
+			}
+		} else if lb, okL := lowerBoundOf(e, 0); okL {
+			switch op {
+			case token.GEQ:
+				ev.val, ev.known = true, lb >= k
+			case token.GTR:
+				ev.val, ev.known = true, lb > k
+			case token.LSS:
+				ev.val, ev.known = false, lb >= k
+			case token.LEQ:
+				ev.val, ev.known = false, lb > k
+			case token.NEQ:
+				ev.val, ev.known = true, lb > k
+			case token.EQL:
+				ev.val, ev.known = false, lb > k
+			}
+		}
+		out = append(out, ev)
+	}
+	return out, true
 }
